@@ -143,14 +143,13 @@ def canonicalise(tree, table):
     return done
 
 
-_cache = None
+_cache = {}
 
 
-def load_table():
-    global _cache
-    if _cache is None:
+def load_table(which="locals"):
+    if which not in _cache:
         try:
-            _cache = json.load(open(TABLE))
+            _cache[which] = json.load(open(os.path.join(os.path.dirname(TABLE), "%s.json" % which)))
         except FileNotFoundError:
-            _cache = {}
-    return _cache
+            _cache[which] = {}
+    return _cache[which]
